@@ -1,7 +1,512 @@
-//! C04: not implemented yet.
-use crate::util::Args;
+//! C04: the unrolled SMT encoding (patronus::mc::UnrollSmtEncoding).  One case per line:
+//! (case ID (sys ..) (named ..) (names (E "n")..) (entry J) (unrolls N)
+//!   (order (E next init other)..)                 analyze_for_serialization, as the implementation computes it
+//!   (blocks (block CMD..)..)                      commands of init_at, then of every unroll, recorded by a SolverContext
+//!   (signals (sig E step SYM)..)                  get_signal_at of states, inputs, constraints, bad states
+//!   (z3 "ok"|"msg") (cvc5 "ok"|"msg")             the real text protocol (SmtLibSolverCtx + replay file) fed to both solvers
+//!   (execs (exec (step (bvenv..) (arrenv..))..)..) random raw valuations, one per step
+//!   (implerr "msg"))
+//! CMD = (decl "name" TY) | (def "name" TY E);  TY = (bv w) | (arr iw dw)
+#[path = "mcgen.rs"]
+pub mod mcgen;
 
-pub fn run(_args: &Args) {
-    eprintln!("C04: harness module not implemented yet");
-    std::process::exit(2);
+use crate::dump::*;
+use crate::exprgen::*;
+use crate::rng::Rng;
+use crate::sexp::{Sexp, build_expr, read_cases};
+use crate::sysgen::dump_sys;
+use crate::util::*;
+use baa::{BitVecOps, BitVecValue};
+use mcgen::*;
+use patronus::expr::*;
+use patronus::mc::{TransitionSystemEncoding, UnrollSmtEncoding};
+use patronus::smt::*;
+use patronus::system::analysis::analyze_for_serialization;
+use patronus::system::*;
+use std::io::Write;
+
+// ---------------------------------------------------------------- a SolverContext that records
+#[derive(Clone, Debug)]
+pub enum RCmd {
+    SetLogic(String),
+    Declare(ExprRef),
+    Define(ExprRef, ExprRef),
+    Assert(ExprRef),
+    CheckSat,
+    CheckSatAssuming(Vec<ExprRef>),
+    Push,
+    Pop,
+    GetValue(ExprRef),
+}
+
+/// Records every call; answers `unsat` to every query.
+pub struct Recorder {
+    pub cmds: Vec<RCmd>,
+    pub check_assuming: bool,
+}
+
+impl Recorder {
+    pub fn new(check_assuming: bool) -> Self {
+        Recorder { cmds: vec![], check_assuming }
+    }
+}
+
+impl SolverMetaData for Recorder {
+    fn name(&self) -> &str {
+        "recorder"
+    }
+    fn supports_check_assuming(&self) -> bool {
+        self.check_assuming
+    }
+    fn supports_uf(&self) -> bool {
+        true
+    }
+    fn supports_const_array(&self) -> bool {
+        true
+    }
+    fn supports_get_unsat_assumptions(&self) -> bool {
+        false
+    }
+}
+
+impl SolverContext for Recorder {
+    fn restart(&mut self) -> Result<()> {
+        Ok(())
+    }
+    fn set_logic(&mut self, option: Logic) -> Result<()> {
+        self.cmds.push(RCmd::SetLogic(format!("{option:?}")));
+        Ok(())
+    }
+    fn assert(&mut self, _ctx: &Context, e: ExprRef) -> Result<()> {
+        self.cmds.push(RCmd::Assert(e));
+        Ok(())
+    }
+    fn declare_const(&mut self, _ctx: &Context, symbol: ExprRef) -> Result<()> {
+        self.cmds.push(RCmd::Declare(symbol));
+        Ok(())
+    }
+    fn define_const(&mut self, _ctx: &Context, symbol: ExprRef, expr: ExprRef) -> Result<()> {
+        self.cmds.push(RCmd::Define(symbol, expr));
+        Ok(())
+    }
+    fn check_sat_assuming(&mut self, _ctx: &Context, props: impl IntoIterator<Item = ExprRef>) -> Result<CheckSatResponse> {
+        self.cmds.push(RCmd::CheckSatAssuming(props.into_iter().collect()));
+        Ok(CheckSatResponse::Unsat)
+    }
+    fn check_sat(&mut self) -> Result<CheckSatResponse> {
+        self.cmds.push(RCmd::CheckSat);
+        Ok(CheckSatResponse::Unsat)
+    }
+    fn push(&mut self) -> Result<()> {
+        self.cmds.push(RCmd::Push);
+        Ok(())
+    }
+    fn pop(&mut self) -> Result<()> {
+        self.cmds.push(RCmd::Pop);
+        Ok(())
+    }
+    fn get_value(&mut self, _ctx: &mut Context, e: ExprRef) -> Result<ExprRef> {
+        self.cmds.push(RCmd::GetValue(e));
+        Ok(e)
+    }
+    fn get_unsat_assumptions(&mut self, _ctx: &mut Context) -> Result<Vec<ExprRef>> {
+        Ok(vec![])
+    }
+}
+
+pub fn dump_cmd(ctx: &Context, c: &RCmd) -> String {
+    match c {
+        RCmd::Declare(s) => format!("(decl {} {})", quote(ctx.get_symbol_name(*s).unwrap_or("?")), dump_type(s.get_type(ctx))),
+        RCmd::Define(s, e) => format!("(def {} {} {})", quote(ctx.get_symbol_name(*s).unwrap_or("?")), dump_type(s.get_type(ctx)), dump_expr(ctx, *e)),
+        RCmd::Assert(e) => format!("(assert {})", dump_expr(ctx, *e)),
+        RCmd::CheckSat => "(check-sat)".to_string(),
+        RCmd::CheckSatAssuming(es) => format!("(check-sat-assuming {})", es.iter().map(|e| dump_expr(ctx, *e)).collect::<Vec<_>>().join(" ")),
+        RCmd::Push => "(push)".to_string(),
+        RCmd::Pop => "(pop)".to_string(),
+        RCmd::GetValue(e) => format!("(get-value {})", dump_expr(ctx, *e)),
+        RCmd::SetLogic(l) => format!("(set-logic {l})"),
+    }
+}
+
+// ---------------------------------------------------------------- random valuations
+pub fn dump_valuation(ctx: &Context, rng: &mut Rng, syms: &[ExprRef]) -> String {
+    let mut bv = String::from("(bvenv");
+    let mut arr = String::from("(arrenv");
+    for s in syms {
+        let name = ctx.get_symbol_name(*s).unwrap().to_string();
+        match s.get_type(ctx) {
+            Type::BV(w) => {
+                let v = lit_value(rng, w);
+                bv.push_str(&format!(" ({} {} {})", quote(&name), w, bv_tok(&v)));
+            }
+            Type::Array(a) => {
+                let d = lit_value(rng, a.data_width);
+                arr.push_str(&format!(" ({} {} {} {}", quote(&name), a.index_width, a.data_width, bv_tok(&d)));
+                for _ in 0..rng.below(4) {
+                    let i = lit_value(rng, a.index_width);
+                    let v = lit_value(rng, a.data_width);
+                    arr.push_str(&format!(" ({} {})", bv_tok(&i), bv_tok(&v)));
+                }
+                arr.push(')');
+            }
+        }
+    }
+    bv.push(')');
+    arr.push(')');
+    format!("(step {bv} {arr})")
+}
+
+// ---------------------------------------------------------------- the case
+pub struct Input {
+    pub ctx: Context,
+    pub sys: TransitionSystem,
+    pub entry: u64,
+    pub unrolls: u64,
+    /// pre-rendered executions (replay) or None (generate)
+    pub execs: Option<String>,
+    pub features: Vec<&'static str>,
+}
+
+fn run_dir_file(stem: &str, ext: &str) -> String {
+    format!("{}-{}.{}", stem, std::process::id(), ext)
+}
+
+/// the SMT-LIB text of the recorded declare/define commands, through patronus' own serializer
+/// (the function SmtLibSolverCtx::write_cmd calls for the solver pipe and for the replay file)
+pub fn smt_text(ctx: &Context, blocks: &[Vec<RCmd>]) -> String {
+    let mut buf: Vec<u8> = vec![];
+    for b in blocks {
+        for c in b {
+            let cmd = match c {
+                RCmd::Declare(s) => SmtCommand::DeclareConst(*s),
+                RCmd::Define(s, e) => SmtCommand::DefineConst(*s, *e),
+                RCmd::Assert(e) => SmtCommand::Assert(*e),
+                _ => continue,
+            };
+            serialize_cmd(&mut buf, Some(ctx), &cmd).expect("serialize");
+        }
+    }
+    String::from_utf8_lossy(&buf).into_owned()
+}
+
+/// The anchor path: the real SmtLibSolverCtx talking to z3, with a replay file.  Returns z3's
+/// verdict through patronus ("ok" | message) and the declare/define lines of the replay file.
+fn real_ctx_run(ctx: &mut Context, sys: &TransitionSystem, entry: u64, unrolls: u64) -> (String, String) {
+    let path = run_dir_file("c04-replay", "smt2");
+    let z3 = guarded(|| -> std::result::Result<(), String> {
+        let file = std::fs::File::create(&path).map_err(|e| e.to_string())?;
+        let mut smt = Z3.start(Some(file)).map_err(|e| format!("start: {e}"))?;
+        smt.set_logic(Logic::All).map_err(|e| format!("{e}"))?;
+        let mut enc = UnrollSmtEncoding::new(ctx, sys, false);
+        enc.init_at(ctx, &mut smt, entry).map_err(|e| format!("{e}"))?;
+        for _ in 0..unrolls {
+            enc.unroll(ctx, &mut smt).map_err(|e| format!("{e}"))?;
+        }
+        match smt.check_sat() {
+            Ok(CheckSatResponse::Sat) => Ok(()),
+            Ok(other) => Err(format!("unexpected answer {other:?}")),
+            Err(e) => Err(format!("{e}")),
+        }
+    });
+    let z3 = match z3 {
+        Ok(Ok(())) => "ok".to_string(),
+        Ok(Err(m)) => m,
+        Err(p) => format!("panic: {p} @ {}", last_panic_loc()),
+    };
+    let txt = std::fs::read_to_string(&path).unwrap_or_default();
+    let _ = std::fs::remove_file(&path);
+    let body: String = txt.lines().filter(|l| l.starts_with("(declare-const") || l.starts_with("(define-fun")).map(|l| format!("{l}\n")).collect();
+    (z3, body)
+}
+
+/// Run many scripts through one solver process: every script is followed by (check-sat), an echo
+/// marker and (reset).  z3 keeps going after an error; cvc5 stops at the first error and is
+/// restarted behind the failing script.  Returns "ok" | first error message, per script.
+pub fn batch_solver(solver: &str, args: &[&str], scripts: &[String]) -> Vec<String> {
+    let mut out: Vec<String> = vec![String::new(); scripts.len()];
+    let mut from = 0usize;
+    let mut launches = 0;
+    while from < scripts.len() {
+        launches += 1;
+        let path = run_dir_file(&format!("c04-batch-{solver}"), "smt2");
+        let mut txt = String::new();
+        for (k, s) in scripts.iter().enumerate().skip(from) {
+            txt.push_str("(set-logic ALL)\n");
+            txt.push_str(s);
+            txt.push_str(&format!("(check-sat)\n(echo \"case-{k}\")\n(reset)\n"));
+        }
+        std::fs::write(&path, txt).expect("batch file");
+        let o = std::process::Command::new(solver).args(args).arg(&path).output();
+        let _ = std::fs::remove_file(&path);
+        let o = match o {
+            Ok(o) => o,
+            Err(e) => {
+                for k in from..scripts.len() {
+                    out[k] = format!("cannot run {solver}: {e}");
+                }
+                return out;
+            }
+        };
+        let text = format!("{}{}", String::from_utf8_lossy(&o.stdout), String::from_utf8_lossy(&o.stderr));
+        let mut cur = from;
+        let mut err: Option<String> = None;
+        let mut sat_seen = false;
+        for line in text.lines() {
+            let l = line.trim().trim_matches('"');
+            if let Some(k) = l.strip_prefix("case-") {
+                let k: usize = k.parse().unwrap_or(cur);
+                out[k] = match (&err, sat_seen) {
+                    (Some(e), _) => e.clone(),
+                    (None, true) => "ok".to_string(),
+                    (None, false) => "no answer".to_string(),
+                };
+                cur = k + 1;
+                err = None;
+                sat_seen = false;
+            } else if l == "sat" {
+                sat_seen = true;
+            } else if l.contains("(error") && err.is_none() {
+                err = Some(l.to_string());
+            } else if err.as_deref().map(|e| e.ends_with("Parse Error:") || e.len() < 40).unwrap_or(false) && !l.is_empty() {
+                // cvc5 spreads its message over several lines
+                let e = err.take().unwrap();
+                err = Some(format!("{e} {l}"));
+            }
+        }
+        if cur < scripts.len() {
+            // the solver stopped inside script `cur`
+            out[cur] = err.unwrap_or_else(|| "solver stopped without a message".to_string());
+            cur += 1;
+        }
+        from = cur;
+        if launches > scripts.len() + 2 {
+            break;
+        }
+    }
+    out
+}
+
+/// a case whose solver verdicts are still to be filled in
+pub struct Pending {
+    head: String,
+    tail: String,
+    smt: String,
+    /// verdict of the real SmtLibSolverCtx path, when it was taken
+    real: Option<(String, bool)>,
+}
+
+pub fn run_case(id: &str, inp: Input, rng: &mut Rng, stats: &mut Stats, real_path: bool) -> Pending {
+    let Input { mut ctx, sys, entry, unrolls, execs, features } = inp;
+    let sys_txt = dump_sys(&ctx, &sys);
+    let named = dump_named(&ctx, &sys);
+    // names and analysis before the encoding adds its own nodes
+    let names = dump_names(&ctx, &sys);
+    let mut implerr = String::new();
+    let order = match guarded(|| analyze_for_serialization(&ctx, &sys, false)) {
+        Ok(meta) => {
+            let mut s = String::from("(order");
+            for r in meta.signal_order.iter() {
+                s.push_str(&format!(" ({} {} {} {})", dump_expr(&ctx, r.expr), r.uses.next, r.uses.init, r.uses.other));
+            }
+            s.push(')');
+            s
+        }
+        Err(m) => {
+            implerr = format!("analyze: {m} @ {}", last_panic_loc());
+            "(order)".to_string()
+        }
+    };
+    // the observable signals
+    let mut observed: Vec<ExprRef> = vec![];
+    for st in sys.states.iter() {
+        observed.push(st.symbol);
+    }
+    observed.extend(sys.inputs.iter().copied());
+    observed.extend(sys.constraints.iter().copied());
+    observed.extend(sys.bad_states.iter().copied());
+    let mut blocks = String::from("(blocks");
+    let mut signals = String::from("(signals");
+    let mut n_cmds = 0u64;
+    let mut smt = String::new();
+    let res = guarded(|| {
+        let mut rec = Recorder::new(true);
+        let mut enc = UnrollSmtEncoding::new(&mut ctx, &sys, false);
+        let mut out_blocks: Vec<Vec<RCmd>> = vec![];
+        enc.init_at(&mut ctx, &mut rec, entry).unwrap();
+        out_blocks.push(std::mem::take(&mut rec.cmds));
+        for _ in 0..unrolls {
+            enc.unroll(&mut ctx, &mut rec).unwrap();
+            out_blocks.push(std::mem::take(&mut rec.cmds));
+        }
+        (enc, out_blocks)
+    });
+    match res {
+        Ok((enc, out_blocks)) => {
+            for b in out_blocks.iter() {
+                blocks.push_str(" (block");
+                for c in b.iter() {
+                    n_cmds += 1;
+                    blocks.push(' ');
+                    blocks.push_str(&dump_cmd(&ctx, c));
+                }
+                blocks.push(')');
+            }
+            smt = smt_text(&ctx, &out_blocks);
+            for k in entry..=entry + unrolls {
+                for e in observed.iter() {
+                    let r = guarded(|| enc.get_signal_at(&ctx, *e, k));
+                    let txt = match r {
+                        Ok(s) => dump_expr(&ctx, s),
+                        Err(_) => "(panic)".to_string(),
+                    };
+                    signals.push_str(&format!(" (sig {} {} {})", dump_expr(&ctx, *e), k, txt));
+                }
+            }
+        }
+        Err(m) => {
+            implerr = format!("encoding: {m} @ {}", last_panic_loc());
+        }
+    }
+    blocks.push(')');
+    signals.push(')');
+    stats.bump("commands_per_script", &format!("{}", (n_cmds / 5) * 5));
+    let real = if real_path {
+        let (v, body) = real_ctx_run(&mut ctx, &sys, entry, unrolls);
+        stats.inc("real_solver_ctx_runs");
+        Some((v, body == smt))
+    } else {
+        None
+    };
+    let execs = match execs {
+        Some(e) => e,
+        None => {
+            let syms: Vec<ExprRef> = sys.states.iter().map(|s| s.symbol).chain(sys.inputs.iter().copied()).collect();
+            let mut s = String::from("(execs");
+            for _ in 0..3 {
+                s.push_str(" (exec");
+                for _ in 0..=unrolls {
+                    s.push(' ');
+                    s.push_str(&dump_valuation(&ctx, rng, &syms));
+                }
+                s.push(')');
+            }
+            s.push(')');
+            s
+        }
+    };
+    for f in features.iter() {
+        stats.bump("features", f);
+    }
+    stats.bump("entry", if entry == 0 { "0" } else { ">0" });
+    stats.bump("unrolls", &format!("{unrolls}"));
+    Pending {
+        head: format!("(case {id} {sys_txt} {named} {names} (entry {entry}) (unrolls {unrolls}) {order} {blocks} {signals}"),
+        tail: format!("{execs} (implerr {}))", quote(&implerr)),
+        smt,
+        real,
+    }
+}
+
+/// run the solvers over all pending cases and render the case lines
+pub fn finish(pending: Vec<Pending>, stats: &mut Stats) -> Vec<String> {
+    let scripts: Vec<String> = pending.iter().map(|p| p.smt.clone()).collect();
+    let z3 = batch_solver("z3", &[], &scripts);
+    let cvc5 = batch_solver("cvc5", &["--incremental", "--produce-models"], &scripts);
+    let mut lines = vec![];
+    for (k, p) in pending.iter().enumerate() {
+        if z3[k] != "ok" {
+            stats.inc("z3_rejects");
+        }
+        if cvc5[k] != "ok" {
+            stats.inc("cvc5_rejects");
+        }
+        let real = match &p.real {
+            None => "(real skipped)".to_string(),
+            Some((v, same)) => format!("(real {} {})", quote(v), if *same { "replay-file-same" } else { "replay-file-differs" }),
+        };
+        lines.push(format!("{} (z3 {}) (cvc5 {}) {} {}", p.head, quote(&z3[k]), quote(&cvc5[k]), real, p.tail));
+    }
+    lines
+}
+
+fn parse_case(c: &Sexp) -> Input {
+    let mut ctx = Context::default();
+    let sys = sys_from_case(&mut ctx, c);
+    let entry = c.field("entry").map(|f| f[0].num()).unwrap_or(0);
+    let unrolls = c.field("unrolls").map(|f| f[0].num()).unwrap_or(1);
+    let execs = c.list().iter().find(|x| matches!(x, Sexp::List(l) if !l.is_empty() && matches!(&l[0], Sexp::Atom(a) if a == "execs"))).map(sexp_to_string);
+    Input { ctx, sys, entry, unrolls, execs, features: vec![] }
+}
+
+pub fn sexp_to_string(x: &Sexp) -> String {
+    match x {
+        Sexp::Atom(a) => a.clone(),
+        Sexp::Str(s) => quote(s),
+        Sexp::List(l) => format!("({})", l.iter().map(sexp_to_string).collect::<Vec<_>>().join(" ")),
+    }
+}
+
+pub fn run(args: &Args) {
+    let mut rng = Rng::new(args.seed);
+    let mut out = std::io::BufWriter::new(std::fs::File::create(&args.out).expect("out file"));
+    let mut stats = Stats::default();
+    let mut distinct = std::collections::HashSet::new();
+    let real_every = args.get_u64("real-every", 10);
+    let mut pending: Vec<Pending> = vec![];
+    if let Some(path) = args.get("cases-in") {
+        for c in read_cases(path).iter() {
+            let id = c.list()[1].atom().to_string();
+            let inp = parse_case(c);
+            pending.push(run_case(&id, inp, &mut rng.fork(), &mut stats, true));
+        }
+    }
+    // directed systems first (both entries), then the generated ones
+    let mut id = 0u64;
+    if args.count > 0 {
+        type Mk = fn(&mut Context) -> TransitionSystem;
+        let directed: [(&'static str, Mk); 4] = [
+            ("directed:shared-init-next", sys_shared_init_next),
+            ("directed:init-signal-reads-state", sys_init_signal_reads_state),
+            ("directed:init-reads-later", sys_init_reads_later),
+            ("directed:nested-init-only", sys_nested_init_only),
+        ];
+        for (name, mk) in directed.iter() {
+            for (entry, unrolls) in [(0u64, 2u64), (1, 1)] {
+                let mut ctx = Context::default();
+                let sys = mk(&mut ctx);
+                let inp = Input { ctx, sys, entry, unrolls, execs: None, features: vec![name] };
+                pending.push(run_case(&format!("d{id}"), inp, &mut rng.fork(), &mut stats, entry == 0));
+                id += 1;
+            }
+        }
+    }
+    let cfg = McCfg::default();
+    for n in 0..args.count {
+        let mut r = rng.fork();
+        let mut ctx = Context::default();
+        let g = gen_mc_sys(&mut ctx, &mut r, &cfg, &mut stats);
+        // both entry points on the same system
+        let unrolls0 = r.range(0, 3);
+        let entry1 = r.range(1, 3);
+        let unrolls1 = r.range(0, 2);
+        for (entry, unrolls) in [(0, unrolls0), (entry1, unrolls1)] {
+            let mut ctx2 = Context::default();
+            // rebuild the system in a fresh store so that both runs see the same node numbering
+            let txt = format!("(case x {} {})", dump_sys(&ctx, &g.sys), dump_named(&ctx, &g.sys));
+            let sx = Sexp::parse(&txt).unwrap();
+            let sys2 = sys_from_case(&mut ctx2, &sx);
+            let inp = Input { ctx: ctx2, sys: sys2, entry, unrolls, execs: None, features: g.features.clone() };
+            let real_path = real_every > 0 && (2 * n + entry.min(1)) % real_every == 0;
+            pending.push(run_case(&format!("{n}e{entry}"), inp, &mut r, &mut stats, real_path));
+        }
+    }
+    for line in finish(pending, &mut stats) {
+        let key_from = line.find("(sys").unwrap_or(0);
+        let key_to = line.find("(order").unwrap_or(line.len());
+        distinct.insert(line[key_from..key_to].to_string());
+        stats.sample(&line, 2);
+        writeln!(out, "{line}").unwrap();
+    }
+    stats.add("distinct_cases", distinct.len() as u64);
+    stats.write(&args.out);
 }
